@@ -22,6 +22,7 @@ type C16 struct {
 	User   sdk.AccAddress
 	Stranger sdk.AccAddress
 	Base   uint64 // batch nonces already used on every chain (genesis field LastOutgoingBatchTxNonce)
+	Keyless bool  // a fifth bonded validator E that never registered keys
 }
 
 func NewC16() *C16 {
@@ -40,10 +41,19 @@ func (c *C16) SeedPaths() [][]engine.Op {
 		{engine.OpN("MkBatch", "ethereum"), engine.OpN("MkBatch", "ethereum"), engine.OpN("MkBatch", "ethereum"), engine.OpN("MkBatch2", "ethereum")}}
 }
 func (c *C16) Genesis() hub.Genesis {
-	g := StdGenesis(c.Vals, []int64{10, 10, 0, 0}, []sdk.AccAddress{c.User, c.Stranger}, sdk.NewCoins(sdk.NewInt64Coin("hub", 1_000_000), sdk.NewInt64Coin("eth", 1_000_000)))
+	vals := c.Vals
+	if c.Keyless {
+		vals = c.Vals[:4]
+	}
+	g := StdGenesis(vals, []int64{10, 10, 0, 0}, []sdk.AccAddress{c.User, c.Stranger}, sdk.NewCoins(sdk.NewInt64Coin("hub", 1_000_000), sdk.NewInt64Coin("eth", 1_000_000)))
 	g.Staking[2].Power = 7
 	g.Staking[3].Power = 6
 	g.Staking[3].Unbonding = true
+	if c.Keyless {
+		e := c.Vals[4]
+		g.Accounts = append(g.Accounts, e.Acc, e.Orch)
+		g.Staking = append(g.Staking, hub.ValState{Oper: e.Oper.String(), Bonded: true, Power: 10})
+	}
 	for _, es := range g.Hub.ExternalStates {
 		es.LastOutgoingBatchTxNonce = c.Base
 	}
@@ -94,6 +104,13 @@ func (c *C16) Ops(s *HState) []engine.Op {
 			ops = append(ops, engine.OpN("Confirm", ch, 0, 1, ref, 1)) // claims B's external address
 		}
 		ops = append(ops, engine.OpN("Confirm", ch, 0, 2, 0, 0)) // stranger
+		ops = append(ops, engine.OpN("Confirm", ch, 0, 0, 0, 4), engine.OpN("Confirm", ch, 0, 0, 2, 4)) // an empty signature
+		if c.Keyless {
+			// E has no registered external address: it claims the zero address / A's address as signer
+			for ref := 0; ref < 5; ref++ {
+				ops = append(ops, engine.OpN("Confirm", ch, 4, 0, ref, 3), engine.OpN("Confirm", ch, 4, 0, ref, 5))
+			}
+		}
 		// right tx, wrong chain in the message (confirmation built for the other chain's tx)
 		ops = append(ops, engine.OpN("Confirm", ch, 0, 1, 2, 2))
 		if ch == "ethereum" {
@@ -239,6 +256,12 @@ func (c *C16) confirm(in *hub.Instance, g *c16Ghost, op engine.Op, st *engine.St
 	if claim == 1 {
 		ext = c.Vals[1].Eth.Hex()
 	}
+	if claim == 3 {
+		ext = "0x0000000000000000000000000000000000000000"
+	}
+	if claim == 5 {
+		ext = c.Vals[0].Eth.Hex()
+	}
 	confChain := chain
 	if claim == 2 { // confirmation refers to the batch as it exists on the OTHER chain
 		if chain == "ethereum" {
@@ -256,6 +279,14 @@ func (c *C16) confirm(in *hub.Instance, g *c16Ghost, op engine.Op, st *engine.St
 			defer func() { recover() }()
 			otx = in.Hub.GetOutgoingTx(in.Ctx(), mhubtypes.ChainID(chain), conf.GetStoreIndex(mhubtypes.ChainID(chain)))
 		}()
+	}
+	if claim == 4 {
+		switch x := conf.(type) {
+		case *mhubtypes.SignerSetTxConfirmation:
+			x.Signature = []byte{}
+		case *mhubtypes.BatchTxConfirmation:
+			x.Signature = []byte{}
+		}
 	}
 	pre := c.rawSigs(in)
 	var r hub.TxResult
@@ -283,6 +314,12 @@ func (c *C16) confirm(in *hub.Instance, g *c16Ghost, op engine.Op, st *engine.St
 	}
 	if !in.Staking.Vals[v].Bonded {
 		st.Violate("C16", "confirmation_recorded_from_unbonded_validator", "getSignerValidator", "op %s", op)
+	}
+	if claim == 3 || claim == 5 {
+		st.Violate("C16", "confirmation_recorded_for_validator_without_registered_address", "SubmitTxConfirmation", "op %s: validator %s never registered an external address on %s, yet its confirmation naming signer %s was recorded", op, val.Name, chain, ext)
+	}
+	if claim == 4 {
+		st.Violate("C16", "empty_signature_recorded_as_confirmation", "SubmitTxConfirmation", "op %s: a confirmation without signature bytes was recorded", op)
 	}
 	if claim == 1 {
 		st.Violate("C16", "confirmation_recorded_with_foreign_signer_address", "SubmitTxConfirmation", "op %s: claimed %s, validator's registered address %s", op, ext, val.Eth.Hex())
@@ -383,6 +420,9 @@ func (c *C16) queries(in *hub.Instance, g *c16Ghost, st *engine.Step) {
 
 		// Unsigned* for every bonded validator, asked through its orchestrator address
 		for vi, v := range c.Vals {
+			if c.Keyless && vi == 4 {
+				continue // E has no orchestrator to ask the unsigned lists with
+			}
 			if !in.Staking.Vals[vi].Bonded {
 				continue
 			}
@@ -464,7 +504,12 @@ func init() {
 		long.Oper, long.Acc = sdk.ValAddress(lb), sdk.AccAddress(lb)
 		odd.Vals[0] = long
 		odd.Vals[1] = edgeValidator("B", 0xff, 0xff)
+		kl := NewC16()
+		kl.Keyless = true
+		kl.Chains = []string{"ethereum"}
+		kl.Vals = append(kl.Vals, hub.NewValidator("E"))
 		return []MultiCase{{Name: "fresh chain", Spec: NewC16(), Cfg: cfg}, {Name: "batch nonces 254..256", Spec: hi, Cfg: cfg},
+				{Name: "a bonded validator that never registered keys", Spec: kl, Cfg: cfg},
 				{Name: "operator addresses of 32 bytes (A) and 0xff..ff (B)", Spec: odd, Cfg: cfg}}, []string{
 			"validators A, B bonded, C unbonded, D unbonding (all with registered keys); batches: up to three of one token plus one of a second token on ethereum; signers: validator account, orchestrator, stranger; tx refs: existing/unknown signer set, existing/unknown batch, contract call; claimed external signer own/other's; a confirmation built for the other chain's batch; duplicates by repetition",
 			"second case: the chain has already issued 253 batch nonces (genesis field LastOutgoingBatchTxNonce), so that the next batches straddle a byte boundary of the nonce inside the signature store keys",
